@@ -546,6 +546,10 @@ def run_unit(ctx: C.Ctx):
     distribution = {"statement_kinds": dict(kinds), "feature_sets": dict(collections.Counter("+".join(f) or "core" for f in feats)),
                     "loop_passes": dict(collections.Counter(loops)), "with_main_loop": sum(1 for p in progs if p["main"] is not None),
                     "constant_inputs": sum(1 for p in progs if len(const_inputs(p["input"])) == 3)}
+    ctx.coverage.setdefault("distribution", {})["C01_stmt"] = distribution
+    ctx.assumptions += [
+        "C01_stmt_preserve_partial is proved modulo a shared opaque expression semantics and assumes SemFacts.sem_facts: the type label the parser infers for an expression is the type of its value (expression layer / C02); it is about the IR semantics Lang.StmtSem.cexec, which is tied to the emitted C++ only by the executable correspondence (extracted transl+cexec vs firmware trace)",
+        "C int = Z and device float = Q in the models: runs that leave the 32-bit / binary32 range are detected on the CPython side and excluded, not blamed"]
     return {
         "distribution": distribution, "outside_guard_samples": outside[:3],
         "theorems": "C01_no_silent_drop, C01_break_guard (all programs transl accepts); C01_stmt_preserve_partial (simulation inside StmtGuard.guard_ok, modulo the shared expression semantics + SemFacts.sem_facts); C01_stmt_{range_bound,retype,promotion_reinit,loop_local_reinit}_refuted (witnesses = listed findings)",
